@@ -255,7 +255,7 @@ func solveAll(fes []*FE, outDir string, timeout, workers int, second bool) {
 				}
 				// fast path: one solver with a short limit; the full portfolio only when it does not decide
 				r := race(file, 2, "z3-new")
-				if r.res != "unsat" && r.res != "sat" {
+				if r.res != "unsat" && r.res != "sat" && (j.ob.Smoke || splitGoal(j.ob.Goal) == nil) {
 					r = race(file, to, "")
 				}
 				if r.res != "unsat" && r.res != "sat" && !j.ob.Smoke {
